@@ -20,6 +20,22 @@
 static struct vh_rng R;
 static uint64_t casesig;
 
+static char trace[600];
+static int nsamples;
+
+static void
+tr(const char * fmt, ...)
+{
+	va_list ap;
+	size_t l = strlen(trace);
+
+	if (l > sizeof(trace) - 60)
+		return;
+	va_start(ap, fmt);
+	vsnprintf(trace + l, sizeof(trace) - l, fmt, ap);
+	va_end(ap);
+}
+
 static uint64_t st_waits, st_peeks, st_consumes, st_cancels, st_eof, st_err,
     st_bytes_seen, st_grow, st_writes, st_reserves, st_zero, st_bytes_sent,
     st_fail_cb, st_after_fail, st_big_waits, st_cancel_partial;
@@ -158,6 +174,8 @@ scenario_reader(uint64_t key)
 	f->p_eintr = vh_chance(&R, 1, 2) ? 0 : 30;
 	f->p_spurious = vh_chance(&R, 1, 2) ? 0 : 30;
 	casesig = vh_fnv_u64(casesig, (uint64_t)end * 10 + f->seg_max);
+	tr("reader: peer sends %llu bytes then %s; recv segments <= %u:", (unsigned long long)total,
+	    end == SIMK_END_EOF ? "EOF" : end == SIMK_END_ERROR ? "error" : "stalls", f->seg_max);
 
 	if ((NR = netbuf_read_init(fd)) == NULL) {
 		viol("reader:init-failed", "netbuf_read_init returned NULL");
@@ -183,6 +201,7 @@ scenario_reader(uint64_t key)
 			netbuf_read_consume(NR, j);
 			consumed += j;
 			st_consumes++;
+			tr(" consume(%zu)", j);
 			if (check_peek(NR, f, consumed, 0, "after consume") < 0)
 				break;
 		}
@@ -209,6 +228,7 @@ scenario_reader(uint64_t key)
 					st_cancel_partial++;
 				netbuf_read_wait_cancel(NR);
 				st_cancels++;
+				tr(" wait(%zu)+cancel", k);
 				run_until(&dummy, 20000);
 				if (q.ncb)
 					viol("reader:callback-after-cancel", "wait callback ran after cancel");
@@ -228,6 +248,7 @@ scenario_reader(uint64_t key)
 		}
 		if (q.ncb != 1)
 			viol("reader:callback-count", "wait callback ran %d times", q.ncb);
+		tr(" wait(%zu)->%d", k, q.status);
 		if (q.status == 0) {
 			if (check_peek(NR, f, consumed, k, "after successful wait") < 0)
 				break;
@@ -310,6 +331,8 @@ scenario_writer(uint64_t key)
 	f->p_out_spurious = vh_chance(&R, 1, 2) ? 0 : 30;
 	fail_ncb = 0;
 	casesig = vh_fnv_u64(casesig, 500 + f->out_seg_max + (f->out_fail_at != SIMK_NEVER));
+	tr("writer: transport %s; send accepts <= %u per call:", f->out_fail_at == SIMK_NEVER ? "healthy" : "fails at an offset",
+	    f->out_seg_max);
 
 	if ((W = netbuf_write_init(fd, fail_cb, NULL)) == NULL) {
 		viol("writer:init-failed", "netbuf_write_init returned NULL");
@@ -338,6 +361,7 @@ scenario_writer(uint64_t key)
 			/* The rest of the reservation is the caller's to scribble on. */
 			for (i = j; i < len; i++)
 				p[i] = 0xEE;
+			tr(" reserve(%zu)+consume(%zu)", len, j);
 			if (netbuf_write_consume(W, j)) {
 				viol("writer:consume-failed", "netbuf_write_consume(%zu) failed", j);
 				break;
@@ -352,6 +376,7 @@ scenario_writer(uint64_t key)
 				vh_die("oom");
 			for (i = 0; i < len; i++)
 				b[i] = vh_streambyte(key, written + i);
+			tr(" write(%zu)", len);
 			if (netbuf_write_write(W, len ? b : b + 1, len)) {
 				viol("writer:write-failed", "netbuf_write_write(%zu) failed", len);
 				free(b);
@@ -441,12 +466,17 @@ main(int argc, char ** argv)
 		vh_seed(&R, seed, i);
 		simk_reset(seed * 313 + i);
 		casesig = 0;
+		trace[0] = '\0';
 		printf("CASE %llu\n", (unsigned long long)i);
 		if (vh_chance(&R, 1, 2))
 			scenario_reader(seed ^ (i * 7919));
 		else
 			scenario_writer(seed ^ (i * 104729));
 		printf("SIG %016llx 1\n", (unsigned long long)casesig);
+		if (nsamples < 3 && strlen(trace) > 80) {
+			nsamples++;
+			printf("SAMPLE %s\n", trace);
+		}
 	}
 	printf("STAT waits %llu\nSTAT waits_beyond_4096 %llu\nSTAT peeks_checked %llu\nSTAT consumes %llu\n"
 	    "STAT wait_cancels %llu\nSTAT cancels_with_partial_data_in_flight %llu\nSTAT eof_reported %llu\n"
